@@ -33,7 +33,7 @@ Definition msp_sequence (max_len : N) (seq : dna) (k p : nat) (perm : option (li
   if (p <=? 2 * k) && (N.of_nat (2 * k - p) <=? max_len)%N then
     if length seq <? k then Some []
     else
-      match scan (msp_score p perm rcmode) seq k p with
+      match scan_checked (msp_score p perm rcmode) seq k p with
       | Some ivs => Some (map (msp_piece seq) ivs)
       | None => None
       end
